@@ -35,6 +35,12 @@ def correspondence(ctx):
         if r.random() < 0.3:
             s.start = r.randrange(0, s.meta["T"] + 1)
             s.stop = r.choice([None, s.start + 1 + r.randrange(s.meta["T"] + 1)])
+        if s._comp_heights and r.random() < 0.6:
+            # --end exactly at the height of a once-active competitor: the range must not change which chain is walked
+            e = r.choice(s._comp_heights)
+            if e >= 1:
+                s.stop = e
+                s.start = r.randrange(0, e)
         s.meta["i"] = i
         by_cb.setdefault(cb, []).append(s)
         actives[id(s)] = active
